@@ -638,8 +638,9 @@ Definition v_perm (r : ref) (chan nick : str) : option perms :=
   | Some c => alookup (key nick) (rc_members c)
   | None => None
   end.
+(* CModes.String(): "+", the mode letters (Go's string(byte): UTF-8 of the code point), then the arguments *)
 Definition v_modes_string (l : list (N * str)) : str :=
   match l with
   | [] => []
-  | _ => 43 :: List.map fst l ++ flat_map (fun yb => match snd yb with [] => [] | a => 32 :: a end) l
+  | _ => 43 :: flat_map (fun yb => byte_as_rune (fst yb)) l ++ flat_map (fun yb => match snd yb with [] => [] | a => 32 :: a end) l
   end.
